@@ -15,3 +15,7 @@ pub mod c07;
 pub mod c03;
 #[cfg(all(kani, feature = "c18"))]
 pub mod c18;
+#[cfg(all(kani, feature = "c13"))]
+pub mod c13;
+#[cfg(all(kani, feature = "c04"))]
+pub mod c04;
